@@ -6,6 +6,7 @@
 import json,os,re,subprocess,sys,threading,queue
 def sh(*a,**k): return subprocess.run(a,capture_output=True,text=True,**k)
 args=sys.argv[1:]; J=4
+FOCUS=os.environ.get('BENIGN_FOCUS')=='1'  # fewer checks per diff (see below)
 if args[:1]==['-j']: J=int(args[1]); args=args[2:]
 P=json.load(open('/verif/props.json'))
 def pkg_of_func(f):
@@ -27,6 +28,15 @@ def worker(i):
             files=re.findall(r'^\+\+\+ b/(\S+)',open(diff).read(),re.M)
             pk={'go.amzn.com/'+os.path.dirname(x) for x in files}
             props=sorted(p for p,s in proppk.items() if s & pk) or [name.split('/')[0]]
+            if FOCUS:
+                # only the properties that have a touched function in their set (by name, from the hunk headers and the changed
+                # lines of the diff), plus the property the diff was written for
+                txt=open(diff).read()
+                fnames=set(re.findall(r'func (?:\([^)]*\) )?(\w+)\(',txt))
+                def has(p):
+                    fs=next(q['functions'] for q in P if q['id']==p)
+                    return any(re.search(r'[.)]'+re.escape(fn)+r'(\$\d+)*$',f) for fn in fnames for f in fs) or any(f.endswith('*') for f in fs if pkg_of_func(f) in pk)
+                props=sorted(set([p for p in props if has(p)]+[name.split('/')[0]]))
             r=sh('git','-C',WT,'apply',diff)
             if r.returncode!=0:
                 with lock: rows.append((name,'-','PATCH DOES NOT APPLY',r.stderr.strip()[:80]))
